@@ -231,6 +231,11 @@ func (d *Discharger) discharge(o *Obligation, ar *Arith) {
 			}
 		}
 	}
+	if os.Getenv("GVC_DEBUG") != "" {
+		for _, r := range results {
+			fmt.Fprintf(os.Stderr, "discharge %s: %s %s %dms\n", o.Name, r.solver, r.status, r.ms)
+		}
+	}
 	nUnsat, nSat := 0, 0
 	var total int64
 	var names []string
